@@ -94,20 +94,20 @@ def gen_programs(rng, tier):
     C01 = importlib.import_module("C01")
     out = []
     q = tier == "quick"
-    for _ in range(2 if q else 5):
+    for _ in range(2 if q else 4):
         ops, sigs = C04.small_program(rng, tier)
-        out.append(dict(ops=ops, sigs=sigs, gen="C04small", ncor=260 if q else 2500))
+        out.append(dict(ops=ops, sigs=sigs, gen="C04small", ncor=260 if q else 1200))
     ops, sigs = C04.big_program(rng, tier)
-    out.append(dict(ops=ops, sigs=sigs, gen="C04big", ncor=30 if q else 300))
-    for _ in range(14 if q else 80):
+    out.append(dict(ops=ops, sigs=sigs, gen="C04big", ncor=30 if q else 150))
+    for _ in range(14 if q else 40):
         ops, sigs, has_omit = C17.gen_writer(rng, tier, allow_omit=True, deep=rng.random() < 0.5)
-        out.append(dict(ops=ops, sigs=sigs, gen="C17" + ("omit" if has_omit else ""), ncor=10 if q else 30))
-    for _ in range(10 if q else 60):
+        out.append(dict(ops=ops, sigs=sigs, gen="C17" + ("omit" if has_omit else ""), ncor=10 if q else 20))
+    for _ in range(10 if q else 30):
         script, sts = C01.gen_case(rng, "quick")
         ops = script.split(";")
         i = ops.index("wclose")
         out.append(dict(ops=ops[:i], sigs={sid: dict(dt=st["dt"], total=st["total"], spd=st["spd"]) for sid, st in sts.items()},
-                        gen="C01", ncor=3 if q else 10, reads=[o for o in ops[i + 2:] if o.split()[0] in ("len", "rd")]))
+                        gen="C01", ncor=3 if q else 6, reads=[o for o in ops[i + 2:] if o.split()[0] in ("len", "rd")]))
     return out
 
 
@@ -183,8 +183,9 @@ def patch_ops(orig, img):
     return ["zero %d 1 %d" % (i, img[i]) for i in range(len(orig)) if orig[i] != img[i]]
 
 
-def crafted(rng, data, n):
-    """-> [(label, file ops)]: n CRC-valid malformed variants of a closed file"""
+def crafted(rng, data, n, cycles=True):
+    """-> [(label, file ops)]: n CRC-valid malformed variants of a closed file (cycles: include the chains that come back to
+    themselves: the C hangs on them until the harness watchdog fires)"""
     cks = chunks_of(data)
     if not cks:
         return []
@@ -241,7 +242,7 @@ def crafted(rng, data, n):
                 struct.pack_into("<H", img, off + 32 + 12, rng.choice([0, 8, 64, 128, 256, 7]))
                 refix(img, off)
                 emit("entry_size", img)
-    cyc = [x for x in out if x[0].startswith("cycle")]
+    cyc = [x for x in out if x[0].startswith("cycle")] if cycles else []
     oth = [x for x in out if not x[0].startswith("cycle")]
     rng.shuffle(oth)
     out = cyc + oth[:max(8, n // 2)]
@@ -275,7 +276,9 @@ def crafted(rng, data, n):
 
 # ---------------------------------------------------------------- running both sides
 def _model(lines, timeout=3000):
-    cmd = ["bash", "-c", "ulimit -s 4000000 2>/dev/null || ulimit -s unlimited 2>/dev/null; exec \"$0\" reader",
+    # RDM_SLOW=<seconds> RDM_SLOWLOG=<file>: the driver reports lines slower than that (diagnosis of generator sizes only)
+    redir = " 2>>\"$RDM_SLOWLOG\"" if os.environ.get("RDM_SLOWLOG") else ""
+    cmd = ["bash", "-c", "ulimit -s 4000000 2>/dev/null || ulimit -s unlimited 2>/dev/null; exec \"$0\" reader" + redir,
            os.path.join(vlib.BUILD, "jlsmodel")]
     return vlib._run_sharded(cmd, lines, SHARDS, timeout)
 
@@ -300,7 +303,7 @@ def scratch_cleanup(ctx):
         ctx.rdm_scratch = None
 
 
-def _impl(scripts, scratch, variant, timeout_s=6):
+def _impl(scripts, scratch, variant, timeout_s=3):
     env = dict(os.environ)
     env["ASAN_OPTIONS"] = "detect_leaks=0:abort_on_error=0:exitcode=99:allocator_may_return_null=1"
     env["UBSAN_OPTIONS"] = "print_stacktrace=1:halt_on_error=1"
@@ -386,7 +389,7 @@ def run_cases(ctx, cases, variant="plain"):
         if toks and toks[-1].startswith(("FAULT", "PROCFAIL")):
             fault = toks[-1]
             toks = toks[:-1]
-        c["impl"] = ";".join(toks[c["npre"]:])
+        c["impl"] = ";".join(t[:400] for t in toks[c["npre"]:])      # a crafted entry count can make one call print megabytes
         c["fault"] = fault
         if "model" not in c:
             c["diff"], c["classes"] = "no file was saved (implementation: %s)" % (fault or a[-120:]), set()
@@ -394,7 +397,15 @@ def run_cases(ctx, cases, variant="plain"):
             c["diff"], c["classes"] = compare_ops(c["rops"], toks[c["npre"]:], fault, c["model"], variant)
         if os.path.exists(c["file"]) and not getattr(ctx, "rdm_keep", False):
             os.remove(c["file"])
+        if not c["diff"]:
+            c.pop("model", None)
+            c["script"] = None          # rebuilt on demand by script_of
     return cases
+
+
+def script_of(c):
+    pre = list(c["ops"]) + ["wclose"] + (["dup"] + list(c["cor"]) if c["cor"] else [])
+    return ";".join(pre + ["save " + c["file"]] + c["rops"])
 
 
 def replay_text(c, variant="plain"):
@@ -432,11 +443,13 @@ def run_rdm(ctx, variant="plain", max_file=400000):
             # a corrupted copy gets a shorter op list (every call once) unless it is a small file
             r2 = rops if len(p["data"]) < 30000 else ["ropen"] + reader_ops(rng, p["sigs"], ctx.tier, nwin=1) + ["rclose"]
             cases.append(dict(ops=p["ops"], cor=cor, rops=r2, label=lab, gen=p["gen"], size=len(p["data"])))
-        if p["gen"].startswith(("C04small", "C17")) and len(p["data"]) < 60000:
+        if p["gen"].startswith(("C04small", "C17")) and len(p["data"]) < 20000:
+            ncyc = getattr(ctx, "rdm_ncyc", 0)
+            ctx.rdm_ncyc = ncyc + 1
             # CRC-valid malformed files: no rdall (the harness would allocate what a crafted length says), callbacks stop after 40 items
             r3 = ["ropen"] + [o + (" 40" if o.split()[0] in ("an", "ut") and len(o.split()) == 3 else "") for o in
                               reader_ops(rng, p["sigs"], ctx.tier, nwin=2) if not o.startswith("rdall") and o != "udr"] + ["udr 40", "rclose"]
-            for lab, cor in crafted(rng, p["data"], p.get("ncraft", 24 if ctx.tier == "quick" else 120)):
+            for lab, cor in crafted(rng, p["data"], p.get("ncraft", 24 if ctx.tier == "quick" else 60), cycles=ncyc < (3 if ctx.tier == "quick" else 12)):
                 cases.append(dict(ops=p["ops"], cor=cor, rops=r3, label="crafted_" + lab, gen=p["gen"], size=len(p["data"])))
     try:
         run_cases(ctx, cases, variant)
@@ -466,15 +479,16 @@ def run_rdm(ctx, variant="plain", max_file=400000):
         outcome[o] = outcome.get(o, 0) + 1
         outcome[c["label"] + "/" + o] = outcome.get(c["label"] + "/" + o, 0) + 1
         if hasattr(ctx, "count"):
-            ctx.count((c["script"][-300:],), nontrivial=(c["label"] != "intact"), sample={"class": c["label"], "gen": c["gen"], "cor": c["cor"], "diff": c["diff"]})
+            ctx.count(((c["script"] or script_of(c))[-300:],), nontrivial=(c["label"] != "intact"), sample={"class": c["label"], "gen": c["gen"], "cor": c["cor"], "diff": c["diff"]})
         if c["diff"]:
             nv += 1
             if nv <= 40:
                 ctx.violation("rdm_case_%d.txt" % nv, replay_text(c, variant), "reader model and implementation differ (%s, %s): %s" % (c["gen"], c["label"], c["diff"][:200]))
-    ctx.extra["distribution"] = dist
-    ctx.extra["outcomes"] = outcome
+    ctx.extra["rdm_distribution"] = dist
+    ctx.extra["rdm_outcomes"] = outcome
+    ctx.extra.setdefault("distribution", dist)
     ctx.extra["rdm_stats"] = dict(programs=len(progs), skipped_big=skipped, files=len(cases), reader_calls_compared=nops)
-    ctx.cov["rule"] = ("writer programs from C04.small_program / big_program, C17.gen_writer (all types, omitted blocks, 1-3 summary levels), C01.gen_case; per program the intact file and "
+    ctx.cov["rule"] = (ctx.cov.get("rule") + "  ||  RDM: " if ctx.cov.get("rule") else "") + ("writer programs from C04.small_program / big_program, C17.gen_writer (all types, omitted blocks, 1-3 summary levels), C01.gen_case; per program the intact file and "
                        "corrupted copies (C04.corruptions: bit flips, 2-3 bits, bursts, overwrites, multi-chunk, truncation; + truncation at chunk boundaries); on each file the same reader "
                        "calls (len, rd windows, rdall, an, ut, udr with and without early stop, undefined signals) run on the C and on the extracted byte-level model reading the saved bytes; "
                        "compared: rc, length, sample bytes (hash + first 24), every item; distinct = (program, corruption)")
@@ -528,8 +542,8 @@ if __name__ == "__main__":
             print("DIFF " + what)
             print(text if len(text) < 2500 else text[:900] + " ... " + text[-1500:])
             print()
-        print(json.dumps(ctx.extra["distribution"], sort_keys=True))
-        print(json.dumps(ctx.extra["outcomes"], sort_keys=True))
+        print(json.dumps(ctx.extra["rdm_distribution"], sort_keys=True))
+        print(json.dumps(ctx.extra["rdm_outcomes"], sort_keys=True))
         print(json.dumps(ctx.extra["rdm_stats"], sort_keys=True))
         print("%d files, %d mismatches, %.1fs" % (ctx.extra["rdm_stats"]["files"], nv, time.time() - t0))
     finally:
